@@ -452,7 +452,7 @@ def stub(rng, n):
         except Exception as e:  # noqa: B902
             real = _exc_kind(e)
         recs.append({"kind": "serial1", "line": line, "real": real})
-    return [{"profile": "serial_stub", "idx": 0, "seed": 0, "opts": None, "desc": "generated tensors through the real copy functions / serialiser",
+    return [{"profile": "serial_stub", "idx": n, "seed": getattr(rng, "stub_seed", 0), "opts": None, "desc": "generated tensors through the real copy functions / serialiser",
              "serial": {"errors": [], "skipped": None, "model": recs, "spec": [], "counts": {}}}]
 
 
@@ -692,6 +692,31 @@ def _extra(res, out):
                     cons.append(f"console-{AREA_COL[a]}/{name}:{h}:{e}")
     out["spec"].append({"kind": "report", "line": f"serreport F={','.join(figs)} C={','.join(cons)}",
                         "what": "CSV and console memory figures against the byte sizes of the memory tensors in the output file"})
+
+
+def stub_rng(seed):
+    """the generator of the stub stream of one check run (kept apart from ck.rng so that a replay can regenerate the stream)"""
+    import random
+
+    r = random.Random(seed * 7919 + 17)
+    r.stub_seed = seed
+    return r
+
+
+def replay(ck):
+    """--replay of a violation found on the stub stream: the stream is regenerated (profile serial_stub, seed, index = length)"""
+    import json
+
+    if not ck.replay_arg:
+        return False
+    r = json.load(open(ck.replay_arg))
+    rp = r.get("replay", r)
+    if rp.get("profile") != "serial_stub":
+        return False
+    st = stage(ck, stub(stub_rng(rp["seed"]), rp["index"]))
+    ck.finish(dict(st, programs=1, evaluations=st["serial_model_requests"], distinct_nontrivial=st["serial_distinct_nontrivial"],
+                   rule="replay of the generated calls of the real copy functions / serialiser", exhaustive=False))
+    return True
 
 
 def extra_c12(res):
